@@ -459,12 +459,14 @@ def offset_unions(ctx, n):
             offs = [0]
             for m in members[1:]:
                 ms = model.size_of(m["t"], cfg)
-                if ms > size:
+                if rng.random() < 0.3:
+                    offs.append(rng.randint(0, size))      # may reach beyond the largest member: the union grows
+                elif ms > size:
                     offs.append(0)
                 else:
                     offs.append(rng.randint(0, size - ms))
-            if max(model.size_of(m["t"], cfg) for m in members) > size:
-                continue
+            # the extent of the union is the furthest end of any member
+            size = max(o + model.size_of(m["t"], cfg) for m, o in zip(members, offs))
             U = cs._make_union("U", [Field(m["name"], lf.type, offset=o) for m, lf, o in
                                      zip(members, cs.T.__fields__, offs)])
             shadow = bytearray(rng.randrange(1, 256) for _ in range(size))
@@ -490,6 +492,9 @@ def offset_unions(ctx, n):
                     return False
                 return True
 
+            if len(U) != size:
+                viol("size", "offset-union-size-differs-from-the-furthest-member-end", got=len(U), want=size)
+                continue
             try:
                 u = U(bytes(shadow))
             except Exception as e:  # noqa: BLE001
